@@ -181,7 +181,17 @@ async fn scenario(out: &mut Out, rng: &mut Rng) {
     for _ in 0..steps {
         match rng.below(12) {
             0 => {
-                // restart
+                // restart; sometimes the bus moves on first and the discoverer is restarted before it has looked at
+                // those events (they sit in its listener's queue and must not survive the restart)
+                if rng.chance(1, 2) {
+                    let k = 1 + rng.below(3);
+                    for _ in 0..k {
+                        bus_op(out, rng, &owner, &mut world, &mut names, if current_only { None } else { Some(()) }).await;
+                    }
+                    owner.handle().sync_broker().await.unwrap();
+                    watcher.handle().sync_broker().await.unwrap();
+                    out.count("restart.with_unconsumed_events");
+                }
                 let cur = rng.chance(1, 3);
                 if cur { disc.restart_current_only().await.unwrap() } else { disc.restart().await.unwrap() }
                 current_only = cur;
